@@ -9,7 +9,7 @@ import z3
 
 from . import e2, rxref
 from .automaton import Aut, SymString, encode_run, merge_classes, model_bytes, state_in
-from .common import (EXIT_INCONCLUSIVE, EXIT_OK, EXIT_VIOLATION, Timer, log, match_known, save_replay, seed, tier, write_evidence)
+from .common import (EXIT_INCONCLUSIVE, EXIT_OK, EXIT_VIOLATION, Timer, log, match_known, save_replay, seed, settle, tier, write_evidence)
 
 FIXED = [
     # hand-written cases (regex syntax corners named in the property)
@@ -297,8 +297,7 @@ def run():
     write_evidence(prop, "translation_validation", cov, tm.s(), reported, assumptions)
     if reported:
         return EXIT_VIOLATION
-    if inconclusive:
-        print("INCONCLUSIVE property=%s: %s" % (prop, inconclusive[0][:300]))
+    if settle(prop, inconclusive, len(cases)):
         return EXIT_INCONCLUSIVE
     print("OK property=%s tier=%s cases=%d decided=%d queries=%d (%.0fs)" % (prop, tr, len(cases), stats["decided"], stats["queries"], tm.s()))
     return EXIT_OK
